@@ -88,19 +88,11 @@ Definition spec (c : case) (o : obs) : bool :=
   | _, _ => false
   end.
 
-(* ---- known-finding classes (narrow, decidable on the input) ---- *)
+(* ---- known-finding classes (narrow, decidable on the input; bare_use and ctrl_byte are
+   defined in Model/PMSGrammar.v) ---- *)
 (* 1: a USE-conditional "flag?" / "!flag?" directly followed by something other than "(" is
-      accepted as if the parentheses were there *)
-Definition is_use_tok (t : bytes) : bool :=
-  match get_token t with TUse _ _ _ => true | _ => false end.
-Fixpoint bare_use (ts : list bytes) : bool :=
-  match ts with
-  | t :: ((u :: _) as r) => (is_use_tok t && negb (beq u (bs "("))) || bare_use r
-  | _ => false
-  end.
-(* 2: bytes 0x00-0x08 and 0x0e-0x1f separate tokens like white space *)
-Definition ctrl_byte (c : ascii) : bool := is_ws c && negb (is_sp c).
-
+      accepted as if the parentheses were there
+   2: bytes 0x00-0x08 and 0x0e-0x1f separate tokens like white space *)
 (* both classes contain only inputs that are accepted (by the model; the correspondence check
    ties that to the implementation), so a crash or a rejection inside them is not excused *)
 Definition accepted (input : bytes) : bool := match decode input with ROk _ => true | _ => false end.
